@@ -59,11 +59,12 @@ type c15Point struct {
 	LastOnH      string // what H's application was told about P since the operation (disconnected / setup, in order of first occurrence)
 	LastOnP      string
 	NonCanonical string // a SKI string handed to H's application that is not canonical
+	ShipID       string // SHIP ID stored for P, read through the canonical SKI
 }
 
 func (p c15Point) comparable() string {
-	return fmt.Sprintf("Hreg=%v Hstate=%d Preg=%v Pstate=%d detail=%d/%d trusted=%v sameService=%v lastOnH=%s lastOnP=%s",
-		p.HReg, p.HState, p.PReg, p.PState, p.DetailCanon, p.DetailSpell, p.Trusted, p.SameService, p.LastOnH, p.LastOnP)
+	return fmt.Sprintf("Hreg=%v Hstate=%d Preg=%v Pstate=%d detail=%d/%d trusted=%v sameService=%v storedID=%s lastOnH=%s lastOnP=%s",
+		p.HReg, p.HState, p.PReg, p.PState, p.DetailCanon, p.DetailSpell, p.Trusted, p.SameService, p.ShipID, p.LastOnH, p.LastOnP)
 }
 
 const settleQuiet = 1700 * time.Millisecond // > scaled dial back-off (1 s) + delayed notification (500 ms)
@@ -153,6 +154,11 @@ func runC15(sc C15Script, spelled bool, certs [2]tls.Certificate) (pts []c15Poin
 			_ = h.Hub.PairingDetailForSki(name(p.SKI))
 		case "lookup":
 			_ = h.Hub.ServiceForSKI(name(p.SKI))
+		case "setid":
+			// the application restores persisted details through the service record, as the API documents
+			svc := h.Hub.ServiceForSKI(name(p.SKI))
+			svc.SetShipID("persisted-id")
+			svc.SetIPv4("127.0.0.1")
 		}
 		time.Sleep(100 * time.Millisecond)
 		if !f.Quiet(settleQuiet, 20*time.Second) {
@@ -173,6 +179,7 @@ func runC15(sc C15Script, spelled bool, certs [2]tls.Certificate) (pts []c15Poin
 		pt.DetailSpell = int(h.Hub.PairingDetailForSki(name(p.SKI)).State())
 		pt.Trusted = h.Hub.ServiceForSKI(p.SKI).Trusted()
 		pt.SameService = h.Hub.ServiceForSKI(p.SKI) == h.Hub.ServiceForSKI(name(p.SKI))
+		pt.ShipID = h.Hub.ServiceForSKI(p.SKI).ShipID() + "/" + h.Hub.ServiceForSKI(p.SKI).IPv4()
 		pt.LastOnH = since(h.App, p.SKI, mark)
 		pt.LastOnP = since(p.App, h.SKI, mark)
 		for _, e := range h.App.Events() {
@@ -225,8 +232,8 @@ func judgeC15(sc C15Script) (key, msg string, nontrivial bool) {
 }
 
 func genC15(t *rapid.T) C15Script {
-	sc := C15Script{State: rapid.SampledFrom([]string{"none", "pending", "completed", "completed"}).Draw(t, "state")}
-	sc.Ops = rapid.SliceOfN(rapid.SampledFrom([]string{"register", "unregister", "disconnect", "cancel", "detail", "lookup", "unregister", "disconnect", "cancel"}), 1, 3).Draw(t, "ops")
+	sc := C15Script{State: rapid.SampledFrom([]string{"none", "none", "pending", "completed", "completed"}).Draw(t, "state")}
+	sc.Ops = rapid.SliceOfN(rapid.SampledFrom([]string{"register", "unregister", "disconnect", "cancel", "detail", "lookup", "setid", "setid", "unregister", "disconnect", "cancel"}), 1, 3).Draw(t, "ops")
 	sc.Spelling = make([]int, 40)
 	kind := rapid.IntRange(0, 3).Draw(t, "spellKind")
 	for i := range sc.Spelling {
